@@ -231,6 +231,8 @@ class Lower:
         if k in ('Ctor', 'TempCtor'):
             if len(args) == 1:
                 return args[0]
+            if args and args[0][0] == 'str' and 'string' in e.get('ty', ''):
+                return args[0]
             return ('call', 'ctor:' + e.get('ty', '')) + tuple(args)
         if k == 'MCall':
             obj = self.ex(e['obj'])
